@@ -257,7 +257,19 @@ func forward(src io.Reader, dst io.Writer, a *action, r *hx.Rand, kex string, de
 	idx := 0
 	var held []byte
 	var heldTy byte
-	for {
+	stop := false
+	// everything after the first NEWKEYS that reaches the receiver belongs to the encrypted phase: withheld
+	deliver := func(raw []byte, ty byte) {
+		if stop {
+			return
+		}
+		dst.Write(raw)
+		delivered.add(ty)
+		if ty == 21 {
+			stop = true
+		}
+	}
+	for !stop {
 		raw, payload, err := readFrame(src)
 		if err != nil {
 			return
@@ -266,13 +278,11 @@ func forward(src io.Reader, dst io.Writer, a *action, r *hx.Rand, kex string, de
 		sent.add(ty)
 		if a != nil && a.act == "ins" && idx == a.pos {
 			p := injected(a.ty, r, kex)
-			dst.Write(frame(p))
-			delivered.add(p[0])
+			deliver(frame(p), p[0])
 		}
 		if a != nil && a.pos2 == idx && a.pos2 >= 0 {
 			p := injected(a.ty2, r, kex)
-			dst.Write(frame(p))
-			delivered.add(p[0])
+			deliver(frame(p), p[0])
 		}
 		switch {
 		case a != nil && a.act == "del" && idx == a.pos:
@@ -280,16 +290,14 @@ func forward(src io.Reader, dst io.Writer, a *action, r *hx.Rand, kex string, de
 		case a != nil && a.act == "swap" && idx == a.pos:
 			held, heldTy = raw, ty
 		default:
-			dst.Write(raw)
-			delivered.add(ty)
+			deliver(raw, ty)
 			if held != nil {
-				dst.Write(held)
-				delivered.add(heldTy)
+				deliver(held, heldTy)
 				held = nil
 			}
 		}
 		idx++
-		if ty == 21 { // everything after the sender's NEWKEYS is encrypted: withhold it
+		if ty == 21 { // what the sender writes after its NEWKEYS is encrypted
 			return
 		}
 	}
@@ -316,20 +324,26 @@ func scriptedPeer(peerIsClient bool, conn io.ReadWriter, o hx.Op, a *action, r *
 	defer wg.Done()
 	kex := o.Str("m")
 	idx := 0
+	stop := false
+	deliver := func(p []byte) {
+		if stop {
+			return
+		}
+		conn.Write(frame(p))
+		delivered.add(p[0])
+		if p[0] == 21 {
+			stop = true
+		}
+	}
 	send := func(payload []byte) {
 		if a.act == "ins" && idx == a.pos {
-			p := injected(a.ty, r, kex)
-			conn.Write(frame(p))
-			delivered.add(p[0])
+			deliver(injected(a.ty, r, kex))
 		}
 		if a.pos2 == idx && a.pos2 >= 0 {
-			p := injected(a.ty2, r, kex)
-			conn.Write(frame(p))
-			delivered.add(p[0])
+			deliver(injected(a.ty2, r, kex))
 		}
 		if !(a.act == "del" && idx == a.pos) {
-			conn.Write(frame(payload))
-			delivered.add(payload[0])
+			deliver(payload)
 		}
 		idx++
 	}
